@@ -34,7 +34,7 @@ MANIFEST = dict(
          "listed names (libm, rand, time, terminal size) and the list names nothing else. Per-procedure no-panic / "
          "errors-iff-invalid theorems live in the files of C15 (strings, characters), C14 (lists, vectors), C08 (+ - * and "
          "integer division) and C07/C13 (every instruction error becomes a returned failure with canonical registers). "
-         "NOT proved: a no-panic theorem for the instruction set and for every builtin (vm_progress is OPEN); that part is "
+         "For every expression of the C01 fragments (constants, quote, if, globals, define/set!, builtin application, lambda/closures, calls by name, recursion through a global) that has a reference value, Vm::eval never panics, for any fuel: the outcome is the value or 'out of model fuel' (C06_fragment_no_panic, C06_fragment2_no_panic, C06_fragment3_no_panic). NOT proved: a no-panic theorem for the whole instruction set and for every builtin on ill-typed arguments (vm_progress is OPEN); that part is "
          "decided by running every builtin x arity 0..5 x a palette of all value kinds and boundary values on the "
          "implementation (panic hook, error rendering forced, probe evaluation after each session) and on the extracted "
          "model, plus token soup through scanner, reader, evaluator, sliced evaluator and highlighter.",
